@@ -136,9 +136,14 @@ def run_harness(ctx, driver, name, timeout=1200, **args):
         pass
     if r.returncode != 0:
         m = re.search(r'^panic: .*$', r.stdout, re.M)
-        if m and 'github.com/joeycumines/go-bigbuff.' in r.stdout and 'harness: ' not in r.stdout[:m.start()]:
-            # an unrecovered panic in a goroutine started by the library (the harness recovers panics of its own calls)
-            raise Crash(r.stdout[m.start():m.start() + 6000])
+        if m and 'harness: ' not in r.stdout[:m.start()]:
+            # an unrecovered panic (the harness recovers panics of the calls it makes itself): it is the library's when the
+            # panicking goroutine (first block of the dump) runs library code, or runs no harness code at all (a function
+            # value the library handed to the runtime, e.g. context.AfterFunc(ctx, wg.Done))
+            tail = r.stdout[m.start():]
+            first = tail.split('\n\n', 2)[1] if tail.count('\n\n') >= 1 else tail
+            if 'github.com/joeycumines/go-bigbuff.' in first or ('main.' not in first and 'verifharness/' not in first):
+                raise Crash(tail[:6000])
         raise Infra(f'harness {driver} {args} failed rc={r.returncode}: {r.stdout[-2000:]} {stats.get("infra")}')
     if stats.get('infra'):
         raise Infra(f'harness {driver} reported infrastructure problems: {stats["infra"]}')
